@@ -327,6 +327,40 @@ def impl_history(arg):
             out.append(_rt_step(db, fmt, enc, via_file))
     return out
 
+def impl_convert_history(arg):
+    """a history of convert() calls in ONE process; a step = [from format, to format, input_encoding, output_encoding,
+    preserve_case, parser_options given?, database]: the source file is written with the input encoding, convert() is
+    called with these arguments, the target is read with the output encoding; every step is judged on its own"""
+    if len(arg) > 1 and arg[1]:
+        import subprocess, sys, json
+        p = subprocess.run([sys.executable, '-B', '-c',
+                            'import sys, json; from props import c02; print(json.dumps(c02.impl_convert_history([json.load(sys.stdin)])))'],
+                           input=json.dumps(arg[0]), capture_output=True, text=True, timeout=120)
+        if p.returncode != 0:
+            return ['HARNESS', 'fresh interpreter failed', p.stderr[-600:]]
+        return json.loads(p.stdout.strip().splitlines()[-1])
+    from pybtex.database import parse_file
+    from pybtex.database.convert import convert
+    out = []
+    with strict_mode():
+        for ffmt, tfmt, ienc, oenc, pc, po, w in arg[0]:
+            def run():
+                db = mk_db(w)
+                d = tempfile.mkdtemp(prefix='c02_')
+                try:
+                    src = os.path.join(d, 'src' + SUFFIX[ffmt]); dst = os.path.join(d, 'dst' + SUFFIX[tfmt])
+                    db.to_file(src, FMTS[ffmt], **({'encoding': ENCODINGS[ienc]} if ENCODINGS[ienc] else {}))
+                    kw = {}
+                    if ENCODINGS[ienc]: kw['input_encoding'] = ENCODINGS[ienc]
+                    if ENCODINGS[oenc]: kw['output_encoding'] = ENCODINGS[oenc]
+                    if po: kw['parser_options'] = {}
+                    convert(src, dst, from_format=FMTS[ffmt], to_format=FMTS[tfmt], preserve_case=bool(pc), **kw)
+                    return enc_db(parse_file(dst, FMTS[tfmt], **({'encoding': ENCODINGS[oenc]} if ENCODINGS[oenc] else {})))
+                finally:
+                    shutil.rmtree(d, ignore_errors=True)
+            out.append(call_impl(run))
+    return out
+
 def encodable(w, enc):
     name = ENCODINGS[enc]
     if name is None or name.startswith('utf'):
@@ -362,6 +396,8 @@ FUNCS = {
     18: ("parse_string(text, 'bibtex') as a database", impl_read_bibtex, ('T', 'S')),
     19: ('round trip / chain of A and of B derived from the Entry objects of A', impl_shared, ('T', 'X', 'X', DB)),
     21: ('history of write/read round trips with writer encodings, one process (oracle only)', impl_history, ('T', ('L', ('T', 'X', 'X', 'X', DB)), 'X')),
+    23: ('history of convert() calls with encodings / parser options, one process (oracle only)', impl_convert_history, ('T', ('L', ('T', 'X', 'X', 'X', 'X', 'X', 'X', DB)), 'X')),
+    24: ('history of convert() calls as the first calls of a fresh interpreter (oracle only)', impl_convert_history, ('T', ('L', ('T', 'X', 'X', 'X', 'X', 'X', 'X', DB)), 'X')),
     22: ('history of round trips as the first writes of a fresh interpreter (oracle only)', impl_history, ('T', ('L', ('T', 'X', 'X', 'X', DB)), 'X')),
     20: ('pickle and repr/eval of A and of B derived from the Entry objects of A (oracle only)', impl_shared_pickle_repr, ('T', 'X', DB)),
 }
@@ -386,10 +422,10 @@ def _xml_canon(x):
 
 # the order-independence replay of core.py re-runs a sample in one process: the cases that start interpreters of their
 # own or go through many temp files are left out of it (they are histories themselves)
-ORDER_REPLAY_SKIP_FUNCS = (13, 20, 22)
+ORDER_REPLAY_SKIP_FUNCS = (13, 20, 22, 24)
 
 def canon(fn, r):
-    if fn in (15, 16, 20, 21, 22):
+    if fn in (15, 16, 20, 21, 22, 23, 24):
         return []          # no model: the oracle alone judges these
     if fn == 19:
         return [canon_res(x) for x in r] if isinstance(r, list) and len(r) == 2 else r
@@ -629,6 +665,25 @@ def oracle(fn, arg, out):
 _LAST = [False]
 def _oracle(fn, arg, out):
     _LAST[0] = False
+    if fn in (23, 24):
+        # every convert() call of the history on its own: the target holds the source's data (identifiers lower-cased without
+        # preserve_case); a BibTeX file with an encoding that cannot carry the text is outside the identity domain
+        for i, ((ffmt, tfmt, ienc, oenc, pc, po, w), o) in enumerate(zip(arg[0], out)):
+            if (ffmt == 0 and not encodable(w, ienc)) or (tfmt == 0 and not encodable(w, oenc)):
+                continue
+            if (0 in (ffmt, tfmt) and has_five(w)) or (2 in (ffmt, tfmt) and type_field(w)):
+                continue
+            if not in_domain(w, [ffmt, tfmt]):
+                continue
+            if o[0] != 0:
+                return 'call %d of %d: convert(%s -> %s, input_encoding=%r, output_encoding=%r, preserve_case=%s) raised %s' % (
+                    i + 1, len(arg[0]), FMTS[ffmt], FMTS[tfmt], ENCODINGS[ienc], ENCODINGS[oenc], bool(pc), 'a pybtex error' if o[0] == 1 else 'a foreign exception')
+            keep = 1 not in (ffmt, tfmt)
+            exp = view(w, lower_ids=not pc, keep_preamble=keep); got = view(o[1], lower_ids=not pc, keep_preamble=keep)
+            if got != exp or (not pc and view(o[1], keep_preamble=keep) != got):
+                return 'call %d of %d: convert(%s -> %s, input_encoding=%r, output_encoding=%r, preserve_case=%s) does not reproduce the data: got %r, expected %r' % (
+                    i + 1, len(arg[0]), FMTS[ffmt], FMTS[tfmt], ENCODINGS[ienc], ENCODINGS[oenc], bool(pc), got, exp)
+        return None
     if fn in (21, 22):
         # each step of the history on its own: with an encoding that can carry the text the round trip is the identity
         # (BibTeX with 'ascii' / 'latin-1' and text outside that repertoire writes LaTeX escapes or raises: outside the identity domain)
@@ -755,6 +810,8 @@ def describe(fn, arg):
             return pd(arg[0])
         if fn == 12:
             return {'format': FMTS[arg[0]], 'database': pd(arg[1])}
+        if fn in (23, 24):
+            return {'convert() history': [{'from': FMTS[a], 'to': FMTS[b], 'input_encoding': ENCODINGS[c], 'output_encoding': ENCODINGS[d], 'preserve_case': bool(e), 'parser_options': '{}' if f else 'default', 'database': pd(w)} for a, b, c, d, e, f, w in arg[0]]}
         if fn in (21, 22):
             return {'history': [{'format': FMTS[f], 'encoding': ENCODINGS[e], 'via': 'file' if v else 'string', 'database': pd(w)} for f, e, v, w in arg[0]]}
         if fn in (19, 20):
@@ -766,7 +823,7 @@ def describe(fn, arg):
     return {'fn': fn, 'arg': arg}
 
 def nontrivial(fn, arg, out):
-    if fn in (15, 16, 19, 20, 21, 22):
+    if fn in (15, 16, 19, 20, 21, 22, 23, 24):
         return True
     if not (isinstance(out, list) and out and out[0] == 0):
         return fn in (1, 2)
@@ -1177,6 +1234,22 @@ def _gen(tier, rng):
             for then in ([0, 0, 0, w], [0, 1, 1, w], [0, 4, 0, w]):
                 yield ('history', 21, [[first, then], 0])
                 yield ('history', 21, [[first, [2, 0, 0, w], then], 0])
+    # ---- histories of convert() calls: encodings, parser_options and preserve_case vary from call to call
+    conv_dbs = [uni_dbs[0], uni_dbs[4], latin_db, ascii_db]
+    for k, w in enumerate(conv_dbs):
+        for ienc in range(len(ENCODINGS)):
+            for ffmt, tfmt in ((0, 2), (0, 0), (2, 0), (0, 1), (1, 0)):
+                yield ('convert_history', 23, [[[ffmt, tfmt, ienc, (ienc + k) % len(ENCODINGS), (k + ienc) % 2, (ffmt + ienc) % 2, w]], 0])
+    for first in ([0, 2, 3, 0, 1, 0, latin_db], [0, 0, 4, 1, 1, 0, uni_dbs[0]], [0, 2, 2, 0, 0, 1, ascii_db], [2, 0, 0, 3, 1, 0, latin_db], [0, 2, 0, 0, 1, 0, ascii_db]):
+        for then in ([0, 2, 0, 0, 1, 0, uni_dbs[0]], [0, 0, 1, 0, 0, 0, uni_dbs[4]], [0, 2, 3, 0, 1, 1, latin_db], [0, 1, 4, 0, 1, 0, uni_dbs[0]]):
+            yield ('convert_history', 23, [[first, then], 0])
+            yield ('convert_history', 23, [[first, [2, 0, 0, 0, 1, 0, uni_dbs[0]], then], 0])
+    for first in ([0, 2, 3, 0, 1, 0, latin_db], [0, 2, 0, 0, 1, 0, ascii_db], [0, 0, 4, 0, 1, 0, uni_dbs[0]], [2, 0, 0, 3, 1, 0, latin_db]):
+        yield ('convert_history_fresh_process', 24, [[first, [0, 2, 0, 0, 1, 0, uni_dbs[0]], [0, 0, 3, 0, 0, 0, latin_db], [0, 2, 0, 0, 1, 1, uni_dbs[4]]], 1])
+    for i in range(15 if quick else 200):
+        steps = [[rng.choice([0, 0, 1, 2]), rng.choice([0, 1, 2]), rng.randrange(len(ENCODINGS)), rng.randrange(len(ENCODINGS)), rng.randint(0, 1), rng.randint(0, 1),
+                  rng.choice(conv_dbs + uni_dbs[:6])] for _ in range(rng.randint(2, 3))]
+        yield ('convert_history', 23, [steps, 0])
     # the same kind of history as the FIRST writes of a fresh interpreter (a process-wide cache filled by the first write)
     for first in ([0, 2, 0, ascii_db], [0, 2, 1, ascii_db], [0, 3, 0, latin_db], [0, 4, 1, ascii_db], [1, 2, 0, ascii_db], [2, 2, 0, ascii_db]):
         for k, w in enumerate(hist_dbs[:1] if quick else hist_dbs):
